@@ -9,6 +9,18 @@ Here:
                   from the mode set), seed/space ensembles for component means and variance shares
                   (2-D 3/8, 1/8; 3-D 8/15, 1/15, 1/15), and the same divergence test on the current *source*
                   of the kernel (its Lean translation run on Float).
+Both sides also explore
+  histories       one SRF / IncomprRandMeth object driven through random operation sequences (model replaced or edited
+                  in place incl. dimension 3 -> 2 -> 3, class, len_scale, var, optional arguments; new / kept seed;
+                  mode_no; mean velocity; generator.update / reset_seed; set_generator): after every step the object's
+                  arrays must have the shapes (model.dim, mode_no), (mode_no,) (Lean: shape_invariant), its output must be
+                  the Lean glue of those arrays (tie), be divergence-free, have the right spatial mean and equal, bit for
+                  bit, a freshly built object with the tracked settings and seed (search);
+  output layouts  the same vectors reach the user through srf(pos), srf.unstructured, fields stored under custom
+                  names, srf.structured, srf.mesh(meshio mesh, points="points"|"centroids", direction=...) (data written
+                  into mesh.point_data / mesh.cell_data) and the vtk export helpers: every path is compared with the
+                  direct unstructured call at the same points, and the divergence / moment searches read the field
+                  through randomly chosen paths.
 """
 import math
 import warnings
@@ -19,7 +31,8 @@ from proto import fbits, unbits, run_driver
 
 KERNEL_FILES = ["field/summator.pyx"]
 ASSUMPTIONS = [
-    "nugget = 0 (with a nugget the generator adds white noise, which has no divergence); model isotropic (no anis / angles), so SRF passes positions to the generator unchanged",
+    "nugget = 0 (with a nugget the generator adds white noise, which has no divergence); model isotropic with zero rotation angles, so SRF passes positions to the generator unchanged (isotropic models WITH rotation angles are explored by the search only: SRF rotates the positions but not the vectors, known finding api:divergence:rotated-isotropic)",
+    "histories: the Lean bookkeeping model GenShape (update/reset_seed/setters resample whenever the model compares unequal or the seed / mode number changes) is tied to the code by checking its invariant (rows of _cov_sample = model.dim, len z = mode_no) on every real object state reached by the random histories, not by translation",
     "theorems are about the Lean translation of summate_incompr at the reals and the three-term glue of IncomprRandMeth.__call__ transcribed by hand (genField); the glue is tied to the real __call__ bit-for-bit by the correspondence",
     "wave vectors are non-zero (|k_j|^2 != 0); the sampler draws radii from a continuous density so k = 0 has probability 0 (the search reports min |k|^2)",
     "variance split: directions uniform on the circle / sphere in the parametrisation of RNG.sample_sphere, amplitudes uncorrelated with unit variance and independent of the modes; the distributional facts themselves are tested by ensembles, not proved",
@@ -105,6 +118,427 @@ def same_bits(a, b):
     return a.shape == b.shape and bool(np.array_equal(a, b, equal_nan=True))
 
 
+# ------------------------------------------------------------------ settings a fresh object is built from
+OPT_BOTH = {"Matern": ("nu", 0.3, 6.0), "Integral": ("nu", 0.3, 6.0), "Rational": ("alpha", 0.5, 6.0),
+            "SuperSpherical": ("nu", 1.01, 6.0), "JBessel": ("nu", 0.55, 5.0), "TPLSimple": ("nu", 2.01, 6.0),
+            "Stable": ("alpha", 0.4, 2.0), "TPLStable": ("alpha", 0.4, 2.0)}   # ranges admissible in dim 2 AND 3
+
+
+def make_desc(rng, name, dim):
+    """settings (JSON-able) of a random isotropic model of class `name` whose optional arguments are admissible in
+    dimension 2 and 3 (so the same settings can be moved between dimensions)"""
+    var = float(rng.choice([0.25, 1.0, 2.5, round(float(np.exp(rng.uniform(-2, 2))), 3)]))
+    ls = float(rng.choice([0.5, 1.0, 4.0, round(float(np.exp(rng.uniform(-1.5, 3))), 3)]))
+    desc = dict(model=name, dim=int(dim), var=var, len_scale=ls)
+    if name in OPT_BOTH:
+        a, lo, hi = OPT_BOTH[name]
+        desc[a] = round(float(rng.uniform(lo, hi)), 3)
+    if name.startswith("TPL") and name != "TPLSimple":
+        desc["hurst"] = round(float(rng.uniform(0.15, 0.95)), 3)
+        if rng.rand() < 0.5:
+            desc["len_low"] = round(float(rng.uniform(0.0, 0.5)) * ls, 3)
+    return desc
+
+
+def build_model(desc):
+    import gstools as gs
+    return getattr(gs, desc["model"])(**{k: v for k, v in desc.items() if k != "model"})
+
+
+def modes_of(gen, dim):
+    """the generator's own modes as (k (dim, N), |k|^2 as the kernel takes it (N,), z1, z2); tolerant of mis-shaped
+    arrays (rows beyond `dim` only enter |k|^2, exactly as in the kernel) so that the oracles below still work"""
+    cov = np.atleast_2d(np.array(gen._cov_sample, dtype=float))
+    return cov[:dim], (cov ** 2).sum(axis=0), np.array(gen._z_1, dtype=float), np.array(gen._z_2, dtype=float)
+
+
+def shapes_ok(gen, dim, mode_no):
+    return (np.shape(gen._cov_sample) == (dim, mode_no) and np.shape(gen._z_1) == (mode_no,)
+            and np.shape(gen._z_2) == (mode_no,))
+
+
+def field_tol(gen, dim, fac, mean_u, pos):
+    """(dim, X) bound on the change of the generated field under a relative perturbation of a few ulp of the positions
+    plus the rounding of the evaluation itself"""
+    kk, k2, z1, z2 = modes_of(gen, dim)
+    p = -kk * kk[0] / k2
+    p[0] += 1.0
+    amp = abs(fac) * (np.abs(z1) + np.abs(z2))
+    ph = np.abs(kk).T @ np.abs(pos)                      # (N, X)
+    return (np.abs(p) * amp) @ (ph + 8.0) * 32 * EPS + 8 * EPS * abs(mean_u)
+
+
+# ------------------------------------------------------------------ output paths of one SRF
+class LayoutProblem(Exception):
+    pass
+
+
+SUF = ["_X", "_Y", "_Z"]
+PATHS = ["call", "call-named", "unstructured", "mesh-points", "mesh-centroids", "vtk-unstructured"]
+NAMES = ["field", "vel", "u_1", "Velocity", "flow2"]
+
+
+class VtkCapture:
+    """intercepts what gstools hands to the pyevtk writers (nothing is written)"""
+
+    def __enter__(self):
+        import gstools.tools.export as ex
+        self.ex, self.old, self.calls = ex, (ex.pointsToVTK, ex.gridToVTK), []
+
+        def points(filename, x, y, z, *a, **kw):
+            self.calls.append(("points", x, y, z, kw.get("data", a[0] if a else None)))
+
+        def grid(filename, x, y, z, *a, **kw):
+            self.calls.append(("grid", x, y, z, kw.get("pointData", a[1] if len(a) > 1 else None)))
+        ex.pointsToVTK, ex.gridToVTK = points, grid
+        return self
+
+    def __exit__(self, *exc):
+        self.ex.pointsToVTK, self.ex.gridToVTK = self.old
+        return False
+
+
+def random_select(rng, dim, mesh_dim):
+    """which mesh coordinates carry the field coordinates, and a `direction` argument saying so"""
+    if mesh_dim == dim and rng.rand() < 0.5:
+        return list(range(dim)), "all"
+    sel = [int(c) for c in rng.permutation(mesh_dim)[:dim]]
+    if rng.rand() < 0.5:
+        return sel, "".join("xyz"[c] for c in sel)
+    return sel, list(sel)
+
+
+def embed_points(rng, P, mesh_dim, select):
+    pts = rng.randn(P.shape[1], mesh_dim) * 7.0          # unselected mesh coordinates are arbitrary
+    for a, c in enumerate(select):
+        pts[:, c] = P[a]
+    return pts
+
+
+def split_blocks(rng, n, kmax=3):
+    k = int(min(n, rng.randint(1, kmax + 1)))
+    cuts = sorted(rng.choice(np.arange(1, n), size=k - 1, replace=False).tolist()) if k > 1 else []
+    return [b - a for a, b in zip([0] + cuts, cuts + [n])]
+
+
+def vertex_mesh(rng, P, mesh_dim, select, blocks=False):
+    """meshio mesh whose points are the columns of P (embedded in mesh_dim coordinates); vertex cells in 1..3 blocks,
+    listed in a shuffled order unless the cell order has to be the point order"""
+    import meshio
+    n = P.shape[1]
+    pts = embed_points(rng, P, mesh_dim, select)
+    sizes = split_blocks(rng, n) if blocks else [n]
+    cells, lo = [], 0
+    for sz in sizes:
+        cells.append(("vertex", np.arange(lo, lo + sz).reshape(-1, 1)))
+        lo += sz
+    return meshio.Mesh(pts, cells)
+
+
+NVERT = {"vertex": 1, "line": 2, "triangle": 3, "quad": 4}
+
+
+def centroid_mesh(rng, P, mesh_dim, select):
+    """meshio mesh with 1..3 cell blocks of mixed types whose cell centroids lie (up to rounding) at the columns of P;
+    the vertices are stored in shuffled order.  Returns the mesh and the centroids (dim, n) recomputed here from the
+    stored vertex coordinates by plain left-to-right sums"""
+    import meshio
+    n = P.shape[1]
+    C = embed_points(rng, P, mesh_dim, select)
+    sizes = split_blocks(rng, n)
+    verts, cells_local = [], []
+    i = 0
+    for sz in sizes:
+        kind = str(rng.choice(list(NVERT)))
+        nv = NVERT[kind]
+        conn = []
+        for _ in range(sz):
+            off = rng.randn(nv, mesh_dim) * 0.37
+            off -= off.mean(axis=0)
+            ids = []
+            for v in range(nv):
+                ids.append(len(verts))
+                verts.append(C[i] + off[v])
+            conn.append(ids)
+            i += 1
+        cells_local.append((kind, np.array(conn, dtype=int).reshape(sz, nv)))
+    verts = np.array(verts)
+    perm = rng.permutation(len(verts))
+    inv = np.empty_like(perm)
+    inv[perm] = np.arange(len(verts))
+    pts = verts[perm]
+    cells = [(kind, inv[conn]) for kind, conn in cells_local]
+    cent = np.empty((mesh_dim, n))
+    i = 0
+    for kind, conn in cells:
+        for row in conn:
+            acc = np.zeros(mesh_dim)
+            for v in row:
+                acc = acc + pts[v]
+            cent[:, i] = acc / len(row)
+            i += 1
+    return meshio.Mesh(pts, cells), cent[select]
+
+
+def as_vectors(a, n, dim, what):
+    """(n, dim) mesh layout -> (dim, n)"""
+    a = np.asarray(a, dtype=float)
+    if a.shape != (n, dim):
+        raise LayoutProblem(f"{what} has shape {a.shape}, expected ({n}, {dim}) = (points, components)")
+    return np.ascontiguousarray(a.T)
+
+
+def cell_vectors(lst, sizes, dim, what):
+    if not isinstance(lst, (list, tuple)) or len(lst) != len(sizes):
+        raise LayoutProblem(f"{what} is not a list with one array per cell block ({len(sizes)})")
+    return np.hstack([as_vectors(a, sz, dim, f"{what}[{b}]") for b, (a, sz) in enumerate(zip(lst, sizes))])
+
+
+def vtk_vectors(call, kind, P, name, dim):
+    k, x, y, z, data = call
+    if k != kind or not isinstance(data, dict):
+        raise LayoutProblem(f"vtk export went to the {k} writer with data {type(data).__name__}")
+    if kind == "points":
+        for a, got in enumerate((x, y, z)):
+            want = P[a] if a < dim else np.zeros(P.shape[1])
+            if not same_bits(np.asarray(got), want):
+                raise LayoutProblem(f"vtk export: coordinate {a} of the exported points is not the position row")
+    missing = [name + SUF[d] for d in range(dim) if name + SUF[d] not in data]
+    if missing or len(data) != dim:
+        raise LayoutProblem(f"vtk export: arrays {sorted(data)} instead of {[name + SUF[d] for d in range(dim)]}")
+    return [np.asarray(data[name + SUF[d]], dtype=float) for d in range(dim)]
+
+
+def eval_via(srf, P, path, rng, **call_kw):
+    """the vector field of `srf` at the columns of P (dim, n), read through output path `path`; -> (dim, n) array.
+    Raises LayoutProblem when the path delivers something of the wrong form."""
+    dim, n = P.shape
+    nm = str(rng.choice(NAMES))
+    if path == "call":
+        out = srf(P, **call_kw)
+    elif path == "unstructured":
+        out = srf.unstructured(P, **call_kw)
+    elif path == "call-named":
+        ret = np.asarray(srf(P, store=nm, **call_kw))
+        if nm not in srf.field_names:
+            raise LayoutProblem(f"field stored as {nm!r} is not listed in field_names {srf.field_names}")
+        out = srf[nm]
+        if not (same_bits(out, getattr(srf, nm)) and same_bits(out, ret)):
+            raise LayoutProblem(f"srf[{nm!r}], srf.{nm} and the returned array differ")
+    elif path == "mesh-points":
+        mesh_dim = int(rng.randint(dim, 4))
+        select, direction = random_select(rng, dim, mesh_dim)
+        mesh = vertex_mesh(rng, P, mesh_dim, select, blocks=True)
+        ret = srf.mesh(mesh, points="points", direction=direction, name=nm, **call_kw)
+        if nm not in mesh.point_data:
+            raise LayoutProblem(f"srf.mesh(points='points', name={nm!r}) wrote point_data keys {sorted(mesh.point_data)}")
+        out = as_vectors(mesh.point_data[nm], n, dim, f"mesh.point_data[{nm!r}]")
+        if np.shape(ret) != (dim, n):
+            raise LayoutProblem(f"srf.mesh returned shape {np.shape(ret)}, expected ({dim}, {n})")
+    elif path == "mesh-centroids":
+        mesh_dim = int(rng.randint(dim, 4))
+        select, direction = random_select(rng, dim, mesh_dim)
+        mesh = vertex_mesh(rng, P, mesh_dim, select, blocks=True)
+        srf.mesh(mesh, points="centroids", direction=direction, name=nm, **call_kw)
+        if nm not in mesh.cell_data:
+            raise LayoutProblem(f"srf.mesh(points='centroids', name={nm!r}) wrote cell_data keys {sorted(mesh.cell_data)}")
+        out = cell_vectors(mesh.cell_data[nm], [len(c.data) for c in mesh.cells], dim, f"mesh.cell_data[{nm!r}]")
+    elif path == "vtk-unstructured":
+        srf(P, store=nm, **call_kw)
+        with VtkCapture() as cap:
+            srf.vtk_export("/nonexistent/c16", field_select=nm, fieldname="w")
+        if len(cap.calls) != 1:
+            raise LayoutProblem(f"vtk_export called the writers {len(cap.calls)} times")
+        out = np.array(vtk_vectors(cap.calls[0], "points", P, "w", dim))
+    else:
+        raise ValueError(path)
+    out = np.asarray(out, dtype=float)
+    if out.shape != (dim, n):
+        raise LayoutProblem(f"path {path}: field has shape {out.shape}, expected ({dim}, {n})")
+    return out
+
+
+# ------------------------------------------------------------------ operation histories on one object
+class Hist:
+    """one SRF (level 'srf') or bare IncomprRandMeth (level 'gen') object plus the settings a freshly built object
+    would be constructed from; operations are JSON-able dicts (so a failing history can be replayed)"""
+
+    def __init__(self, level, desc, mode_no, seed, mean_u):
+        import gstools as gs
+        from gstools.field.generator import IncomprRandMeth
+        self.level, self.desc, self.N, self.seed, self.mu = level, dict(desc), int(mode_no), int(seed), float(mean_u)
+        self.init = dict(level=level, desc=dict(desc), mode_no=self.N, seed=self.seed, mean_velocity=self.mu)
+        self.ops = []
+        if level == "srf":
+            self.srf = gs.SRF(build_model(desc), generator="VectorField", mean_velocity=self.mu, mode_no=self.N,
+                              seed=self.seed)
+            self.bare = None
+        else:
+            self.srf = None
+            self.bare = IncomprRandMeth(build_model(desc), mean_velocity=self.mu, mode_no=self.N, seed=self.seed)
+
+    @property
+    def gen(self):
+        return self.srf.generator if self.srf is not None else self.bare
+
+    @property
+    def dim(self):
+        return self.desc["dim"]
+
+    def apply(self, op):
+        k = op["k"]
+        self.ops.append(op)
+        seed = op.get("seed", "keep")
+        sarg = np.nan if seed == "keep" else seed
+        if k == "replace":                       # a new model object
+            m = build_model(op["desc"])
+            if self.srf is not None:
+                self.srf.model = m
+            else:
+                self.bare.model = m
+            self.desc = dict(op["desc"])
+        elif k == "edit":                        # in-place edit of the SRF's model
+            setattr(self.srf.model, op["attr"], op["value"])
+            self.desc[op["attr"]] = op["value"]
+        elif k == "call-seed":                   # SRF.__call__ with a seed
+            self.srf(np.zeros((self.dim, 1)), seed=seed)
+            self.seed = seed
+        elif k == "gen.seed":
+            self.gen.seed = seed
+            self.seed = seed
+        elif k == "gen.mode_no":
+            self.gen.mode_no = op["n"]
+            self.N = int(op["n"])
+        elif k == "gen.mean_u":
+            self.gen.mean_u = op["v"]
+            self.mu = float(op["v"])
+        elif k == "gen.reset_seed":
+            self.gen.reset_seed(sarg)
+            if seed != "keep":
+                self.seed = seed
+        elif k == "gen.update":                  # generator.update(model | None, seed | nan)
+            m = build_model(op["desc"]) if op.get("desc") else None
+            self.gen.update(m, sarg)
+            if seed != "keep":
+                self.seed = seed
+            if m is not None and self.srf is None:
+                self.desc = dict(op["desc"])
+            # level 'srf': the next SRF call hands the SRF's own model back to the generator (a detour through `m`)
+        elif k == "set_generator":
+            self.srf.set_generator(op["name"], mean_velocity=op["v"], mode_no=op["n"], seed=seed)
+            self.N, self.mu, self.seed = int(op["n"]), float(op["v"]), seed
+        else:
+            raise ValueError(k)
+
+    def evaluate(self, P, path="call", rng=None):
+        if self.srf is not None:
+            return eval_via(self.srf, P, path, rng if rng is not None else np.random.RandomState(0))
+        return np.asarray(self.bare(P), dtype=float)
+
+    def fresh(self, P):
+        """a freshly built object with the tracked settings and seed, evaluated by the direct call"""
+        h = Hist(self.level, self.desc, self.N, self.seed, self.mu)
+        return np.asarray(h.srf(P) if h.srf is not None else h.bare(P), dtype=float), h
+
+    def record(self):
+        return dict(self.init, ops=list(self.ops), now=dict(desc=dict(self.desc), mode_no=self.N, seed=self.seed,
+                                                             mean_velocity=self.mu))
+
+
+def other_dim_desc(desc):
+    return dict(desc, dim=5 - desc["dim"])
+
+
+def changed_param(rng, desc, inplace=False):
+    """(attr, new value) for a clearly different len_scale / var / optional argument (never inside an isclose band).
+    In-place edits of truncated-power-law models are restricted to var: their public var is intensity x a factor of
+    len_scale, len_low and hurst, so editing one of those changes var as well (parameter semantics are C14's subject)"""
+    name = desc["model"]
+    attrs = ["len_scale", "var"] + ([OPT_BOTH[name][0]] if name in OPT_BOTH else []) + (["hurst"] if "hurst" in desc else [])
+    if inplace and name.startswith("TPL"):
+        attrs = ["var"]
+    a = str(rng.choice(attrs))
+    if a in ("len_scale", "var"):
+        return a, round(desc[a] * float(rng.choice([0.5, 2.0, 1.3])), 6)
+    if a == "hurst":
+        return a, round(0.15 + (desc[a] - 0.15 + 0.31) % 0.8, 3)
+    _, lo, hi = OPT_BOTH[name]
+    v = desc[a]
+    while abs(v - desc[a]) < 0.05 * (hi - lo):
+        v = round(float(rng.uniform(lo, hi)), 3)
+    return a, v
+
+
+def random_op(rng, h):
+    """one random operation for the history `h` (depends on the tracked state only)"""
+    new_seed = lambda: int(rng.randint(0, 2 ** 31 - 1))
+    keep_or_new = lambda: "keep" if rng.rand() < 0.6 else new_seed()
+    srf = h.level == "srf"
+    kinds = (["replace-dim"] * 4 + ["replace-param"] * 2 + ["replace-class"] + ["replace-same"] + ["gen.seed"] * 2
+             + ["gen.mode_no"] * 2 + ["gen.mean_u"] * 2 + ["gen.reset_seed"] + ["gen.update"] * 3)
+    if srf:
+        kinds += ["edit-dim"] * 3 + ["edit-param"] * 2 + ["call-seed"] * 2 + ["set_generator"]
+    k = str(rng.choice(kinds))
+    if k == "replace-dim":
+        return dict(k="replace", desc=other_dim_desc(h.desc))
+    if k == "replace-param":
+        a, v = changed_param(rng, h.desc)
+        return dict(k="replace", desc=dict(h.desc, **{a: v}))
+    if k == "replace-class":
+        return dict(k="replace", desc=make_desc(rng, MODELS[rng.randint(len(MODELS))], int(rng.choice([2, 3]))))
+    if k == "replace-same":
+        return dict(k="replace", desc=dict(h.desc))
+    if k == "edit-dim":
+        return dict(k="edit", attr="dim", value=5 - h.desc["dim"])
+    if k == "edit-param":
+        a, v = changed_param(rng, h.desc, inplace=True)
+        return dict(k="edit", attr=a, value=v)
+    if k == "call-seed":
+        return dict(k="call-seed", seed=new_seed())
+    if k == "gen.seed":
+        return dict(k="gen.seed", seed=new_seed() if rng.rand() < 0.8 else h.seed)
+    if k == "gen.mode_no":
+        return dict(k="gen.mode_no", n=int(rng.choice([1, 2, 3, 9, 33, int(rng.randint(4, 80))])))
+    if k == "gen.mean_u":
+        return dict(k="gen.mean_u", v=float(rng.choice([1.0, -2.5, 0.3, 4.0, round(float(rng.randn() * 3), 3) or 0.7])))
+    if k == "gen.reset_seed":
+        return dict(k="gen.reset_seed", seed=keep_or_new())
+    if k == "gen.update":
+        r = rng.rand()
+        if r < 0.6:      # a model of the other dimension (level 'srf': a detour, the SRF's model comes back at the next call)
+            d = other_dim_desc(h.desc)
+        elif r < 0.8:
+            a, v = changed_param(rng, h.desc)
+            d = dict(h.desc, **{a: v})
+        else:
+            d = None
+        return dict(k="gen.update", desc=d, seed=keep_or_new())
+    if k == "set_generator":
+        return dict(k="set_generator", name=str(rng.choice(["VectorField", "IncomprRandMeth"])),
+                    n=int(rng.choice([2, 11, 40])), v=float(rng.choice([1.0, -1.5, 0.4])), seed=new_seed())
+    raise ValueError(k)
+
+
+def op_kind(op):
+    k = op["k"]
+    if k == "replace":
+        return "replace"
+    if k == "edit":
+        return "edit-dim" if op["attr"] == "dim" else "edit-param"
+    if k == "gen.update":
+        return "gen.update-" + ("model" if op.get("desc") else "seed-only")
+    return k
+
+
+def start_history(rng, level):
+    name = MODELS[rng.randint(len(MODELS))]
+    dim = int(rng.choice([3, 3, 2]))
+    desc = make_desc(rng, name, dim)
+    N = int(rng.choice([1, 2, 7, 24, int(rng.randint(3, 60))]))
+    mu = float(rng.choice([1.0, -2.5, 0.3, round(float(rng.randn() * 3), 3) or 1.0]))
+    return Hist(level, desc, N, int(rng.randint(0, 2 ** 31 - 1)), mu)
+
+
 # ------------------------------------------------------------------ tie B
 def correspondence(ctx):
     import gstools as gs
@@ -115,6 +549,35 @@ def correspondence(ctx):
     jobs, cases = [], []
     dist = {}
     skipped = 0
+    disagreements = []
+
+    def bump(k):
+        dist[k] = dist.get(k, 0) + 1
+
+    def add_case(gen, desc, N, seed, mu, path, pos, out, dim, extra=None):
+        """queue one real output for the comparison with the Lean glue; the shape invariant is checked first (the
+        kernel model takes ONE row count for mode array and positions).  The variance of the glue is the public var of
+        a model built from the tracked settings (for TPL models var -> intensity -> var is not the identity on doubles)"""
+        c = dict(desc, mode_no=N, seed=seed, mean_velocity=mu, path=path, X=int(pos.shape[1]),
+                 out=np.asarray(out, dtype=float), var_used=float(build_model(desc).var), pos=pos,
+                 shape_ok=shapes_ok(gen, dim, N), gen_var=float(gen.model.var), gen_dim=int(gen.model.dim),
+                 mode_shapes=[list(np.shape(gen._cov_sample)), list(np.shape(gen._z_1)), list(np.shape(gen._z_2))])
+        if extra:
+            c.update(extra)
+        if not c["shape_ok"]:
+            bump("shape-invariant-broken")
+            disagreements.append({"what": "generator mode arrays do not have shapes (model.dim, mode_no), (mode_no,), (mode_no,)",
+                                  "case": {k: v for k, v in c.items() if k not in ("out", "pos")}})
+            return
+        if c["gen_var"] != c["var_used"] or c["gen_dim"] != dim:
+            disagreements.append({"what": "generator's private model does not carry the variance / dimension of the settings in force",
+                                  "case": {k: v for k, v in c.items() if k not in ("out", "pos")}})
+            return
+        c["k2min"] = float((np.array(gen._cov_sample) ** 2).sum(axis=0).min())
+        jobs.append((np.array(gen._cov_sample), np.array(gen._z_1), np.array(gen._z_2), pos))
+        cases.append(c)
+
+    # (a) freshly built objects: generator, SRF unstructured, SRF structured
     for t in range(n):
         name = MODELS[t % len(MODELS)]
         dim = 2 + (t // len(MODELS)) % 2
@@ -149,29 +612,92 @@ def correspondence(ctx):
                     out = np.asarray(out).reshape(dim, -1)
         except Exception as e:  # sampler failures are not this property's business
             skipped += 1
-            dist["skipped:" + type(e).__name__] = dist.get("skipped:" + type(e).__name__, 0) + 1
+            bump("skipped:" + type(e).__name__)
             continue
-        cov, z1, z2 = np.array(gen._cov_sample), np.array(gen._z_1), np.array(gen._z_2)
-        jobs.append((cov, z1, z2, pos))
-        cases.append(dict(desc, mode_no=N, seed=seed, mean_velocity=mu, path=path, X=int(pos.shape[1]),
-                          out=np.asarray(out, dtype=float), var_used=float(gen.model.var), pos=pos,
-                          shape_ok=(cov.shape == (dim, N) and z1.shape == (N,) and z2.shape == (N,)),
-                          k2min=float((cov ** 2).sum(axis=0).min())))
+        add_case(gen, desc, N, seed, mu, path, pos, out, dim)
+
+    # (b) every output layout of a fresh SRF (stored names, meshio point / cell data, vtk arrays)
+    rng_b = np.random.RandomState(ctx.seed + 1601)
+    for t in range(ctx.scale(40, 480)):
+        name = MODELS[rng_b.randint(len(MODELS))]
+        dim = int(rng_b.choice([2, 3]))
+        desc = make_desc(rng_b, name, dim)
+        N = int(rng_b.choice([1, 3, 17, int(rng_b.randint(4, 100))]))
+        seed = int(rng_b.randint(0, 2 ** 31 - 1))
+        mu = float(rng_b.choice([1.0, -2.5, 0.3, round(float(rng_b.randn() * 3), 3)]))
+        path = PATHS[1:][t % (len(PATHS) - 1)]
+        X = int(rng_b.choice([1, dim, dim + 1, int(rng_b.randint(2, 13))]))
+        pos = rng_b.randn(dim, X) * desc["len_scale"] * float(rng_b.choice([0.1, 1.0, 10.0]))
+        try:
+            srf = gs.SRF(build_model(desc), generator="VectorField", mean_velocity=mu, mode_no=N, seed=seed)
+        except Exception as e:
+            skipped += 1
+            bump("skipped:" + type(e).__name__)
+            continue
+        try:
+            out = eval_via(srf, pos, path, rng_b)
+        except LayoutProblem as e:
+            bump("layout-problem")
+            disagreements.append({"what": f"output path {path} does not deliver a (points, components) vector array: {e}",
+                                  "case": dict(desc, mode_no=N, seed=seed, mean_velocity=mu, path=path, X=X)})
+            continue
+        add_case(srf.generator, desc, N, seed, mu, "srf-" + path, pos, out, dim)
+
+    # (c) objects reached through operation histories
+    rng_c = np.random.RandomState(ctx.seed + 1602)
+    for t in range(ctx.scale(30, 360)):
+        level = "srf" if t % 3 else "gen"
+        try:
+            h = start_history(rng_c, level)
+        except Exception as e:
+            skipped += 1
+            bump("skipped:" + type(e).__name__)
+            continue
+        L = int(rng_c.randint(2, 6))
+        try:
+            h.evaluate(rng_c.randn(h.dim, 2) * h.desc["len_scale"], "call-named" if level == "srf" else "generator", rng_c)
+        except Exception as e:
+            disagreements.append({"what": f"evaluation of a fresh object raised {type(e).__name__}: {e}", "case": h.record()})
+            continue
+        for s in range(L):
+            op = random_op(rng_c, h)
+            try:
+                h.apply(op)
+            except Exception as e:
+                bump("history-op-raised:" + type(e).__name__)
+                disagreements.append({"what": f"operation {op_kind(op)} raised {type(e).__name__}: {e}", "case": h.record()})
+                break
+            bump("op:" + op_kind(op))
+            if s < L - 1 and rng_c.rand() < 0.35:
+                continue
+            dim = h.dim
+            X = int(rng_c.choice([1, 2, 5]))
+            pos = rng_c.randn(dim, X) * h.desc["len_scale"] * float(rng_c.choice([0.1, 1.0, 10.0]))
+            path = str(rng_c.choice(PATHS)) if level == "srf" else "generator"
+            try:
+                out = h.evaluate(pos, path, rng_c)
+            except LayoutProblem as e:
+                disagreements.append({"what": f"after a history, output path {path}: {e}", "case": h.record()})
+                break
+            except Exception as e:
+                bump("history-eval-raised:" + type(e).__name__)
+                disagreements.append({"what": f"evaluation after {op_kind(op)} raised {type(e).__name__}: {e}", "case": h.record()})
+                break
+            add_case(h.gen, h.desc, h.N, h.seed, h.mu, "history/" + level + "/" + path, pos, out, dim,
+                     extra=dict(history=[op_kind(o) for o in h.ops], ops=list(h.ops), init=h.init))
+
     res = run_kernel(jobs)
-    disagreements, distinct = [], set()
+    distinct = set()
     for c, K in zip(cases, res):
         want = glue(c["mean_velocity"], c["var_used"], c["mode_no"], K)
         got = c["out"]
-        key = f"{c['model']}/{c['dim']}d/{c['path']}"
-        dist[key] = dist.get(key, 0) + 1
+        key = f"{c['model']}/{c['dim']}d/{c['path']}" if "history" not in c else f"{c['dim']}d/{c['path']}"
+        bump(key)
         pub = {k: v for k, v in c.items() if k not in ("out", "pos")}
-        if not c["shape_ok"]:
-            disagreements.append({"what": "generator mode arrays do not have shapes (dim,N),(N,),(N,)", "case": pub})
-            continue
         if c["X"] > 0 and c["mean_velocity"] != 0.0 and np.any(K != 0):
-            distinct.add((c["model"], c["dim"], c["path"], c["mode_no"], c["X"]))
+            distinct.add((c["model"], c["dim"], c["path"], c["mode_no"], c["X"], tuple(c.get("history", ()))))
         if same_bits(got, want):
-            dist["bit-exact"] = dist.get("bit-exact", 0) + 1
+            bump("bit-exact")
             continue
         # every operation of the glue and of the kernel is reproduced in the same order on IEEE doubles
         # (the driver squares with x*x exactly like the compiled pow(x, 2.0)), so nothing but identity is accepted
@@ -179,14 +705,22 @@ def correspondence(ctx):
         disagreements.append({"what": "IncomprRandMeth/SRF output differs from mean_u*e1 + mean_u*sqrt(var/N)*summate_incompr(model)",
                               "case": pub, "max_abs_err": err, "pos": c["pos"].tolist(),
                               "got": got.tolist(), "want": want.tolist()})
-    samples = [{k: v for k, v in c.items() if k not in ("out", "pos")} for c in cases[:3]]
+    samples = [{k: v for k, v in c.items() if k not in ("out", "pos")} for c in cases[:2] + cases[-1:]]
     dist["skipped"] = skipped
     return {"evaluations": len(cases), "distinct_nontrivial": len(distinct),
-            "rule": "all 17 model classes x dim 2/3 with random admissible parameters, mode_no in {1,2,3,7,32,random<160}, "
+            "rule": "(a) all 17 model classes x dim 2/3 with random admissible parameters, mode_no in {1,2,3,7,32,random<160}, "
                     "random seeds, mean velocities {1,0,-2.5,0.3,random}, evaluated through IncomprRandMeth.__call__, "
-                    "SRF(...)(pos) and SRF.structured; the generator's own _cov_sample/_z_1/_z_2 and the positions go through "
-                    "the generated Lean kernel on Float, the three-term glue is applied per element, comparison is bit-exact; "
-                    "distinct = distinct (class, dim, path, mode_no, #points) with non-zero mean velocity and fluctuation",
+                    "SRF(...)(pos) and SRF.structured; (b) fresh SRFs read through every other output path (field stored under "
+                    "a custom name, srf.unstructured, srf.mesh on meshio meshes with points='points'/'centroids', random "
+                    "direction selection and 1-3 cell blocks, arrays handed to the vtk writers); (c) one SRF / IncomprRandMeth "
+                    "object driven through 2-5 random operations (model replaced / edited in place incl. dim 3<->2, class, "
+                    "len_scale, var, optional arguments; seeds kept or new; mode_no; mean_u; generator.update detours; "
+                    "reset_seed; set_generator) and evaluated after the steps. In every case the shape invariant "
+                    "(_cov_sample is (model.dim, mode_no), z arrays (mode_no,)) is checked against the settings tracked by the "
+                    "harness, then the generator's own _cov_sample/_z_1/_z_2 and the positions go through the generated Lean "
+                    "kernel on Float, the three-term glue (with the tracked variance, mode number and mean velocity) is "
+                    "applied per element, comparison is bit-exact; distinct = distinct (class, dim, path, mode_no, #points, "
+                    "operation kinds) with non-zero mean velocity and fluctuation",
             "samples": samples, "disagreements": disagreements[:10], "distribution": dist}
 
 
@@ -212,8 +746,11 @@ def fd_divergence(U, dim, X, h):
 def div_tolerance(cov, z1, z2, x, h, fac):
     """bound on |FD divergence| of an exactly divergence-free mode sum with these modes:
     truncation h^2/6 * sum |k_d|^3 |amp| + rounding (phase and cancellation) / h; and the natural scale
-    S = sum_d sum_j |p_d| |amp_j| |k_dj| of the terms that have to cancel"""
+    S = sum_d sum_j |p_d| |amp_j| |k_dj| of the terms that have to cancel.
+    (`cov` may have more rows than the points: like the kernel, |k|^2 runs over all rows, everything else over the
+    rows of `x`; for well-formed mode arrays this is the same thing)"""
     k2 = (cov ** 2).sum(axis=0)
+    cov = cov[:x.shape[0]]
     p = -cov * cov[0] / k2
     p[0] += 1.0
     amp = abs(fac) * (np.abs(z1) + np.abs(z2))
@@ -224,11 +761,25 @@ def div_tolerance(cov, z1, z2, x, h, fac):
     return S, trunc, rnd
 
 
+def check_divergence(gen, U, x, h, dim, fac):
+    """-> (index of the first point whose FD divergence exceeds the tolerance or None, div, tol, S, absum, worst ratio)"""
+    X = x.shape[1]
+    div, absum = fd_divergence(U, dim, X, h)
+    cov, z1, z2 = np.atleast_2d(np.array(gen._cov_sample, dtype=float)), np.array(gen._z_1), np.array(gen._z_2)
+    S, trunc, rnd = div_tolerance(cov, z1, z2, x, h, fac)
+    tol = 3.0 * trunc + 3.0 * rnd + 1e-9 * S
+    bad = np.where(~(np.abs(div) <= tol))[0]
+    worst = float(np.max(np.abs(div) / tol)) if S > 0 else 0.0
+    return (int(bad[0]) if bad.size else None), div, tol, S, absum, worst
+
+
 def api_divergence(ctx, n, deep):
     import gstools as gs
     warnings.simplefilter("ignore")
     rng = np.random.RandomState(ctx.seed + 1616)
+    rng_p = np.random.RandomState(ctx.seed + 1617)      # output path choices (separate stream)
     viol, ev, worst, k2min = [], 0, 0.0, np.inf
+    paths = {}
     for t in range(n):
         name = MODELS[t % len(MODELS)]
         dim = 2 + (t // len(MODELS)) % 2
@@ -244,30 +795,331 @@ def api_divergence(ctx, n, deep):
         ls = desc["len_scale"]
         x = rng.randn(dim, X) * ls * float(rng.choice([0.3, 3.0, 30.0]))
         h = 1e-5 * ls
-        U = np.asarray(srf(fd_points(x, h)))
-        div, absum = fd_divergence(U, dim, X, h)
+        path = PATHS[(t // 2) % len(PATHS)] if t % 2 else "call"
+        paths[path] = paths.get(path, 0) + 1
+        try:
+            U = eval_via(srf, fd_points(x, h), path, rng_p)
+        except LayoutProblem as e:
+            viol.append({"key": f"api:layout:{path}", "what": f"output path {path} of a vector field: {e}",
+                         "case": dict(desc, mode_no=N, seed=seed, mean_velocity=mu, path=path)})
+            continue
         g = srf.generator
-        cov, z1, z2 = np.array(g._cov_sample), np.array(g._z_1), np.array(g._z_2)
-        k2min = min(k2min, float((cov ** 2).sum(axis=0).min()) * ls * ls)
+        k2min = min(k2min, float((np.array(g._cov_sample) ** 2).sum(axis=0).min()) * ls * ls)
         fac = mu * math.sqrt(model.var / N)
-        S, trunc, rnd = div_tolerance(cov, z1, z2, x, h, fac)
-        tol = 3.0 * trunc + 3.0 * rnd + 1e-9 * S
+        i, div, tol, S, absum, w = check_divergence(g, U, x, h, dim, fac)
         ev += X
-        if S > 0:
-            worst = max(worst, float(np.max(np.abs(div) / tol)))
-        bad = np.where(~(np.abs(div) <= tol))[0]
-        if bad.size:
-            i = int(bad[0])
-            viol.append({"key": f"api:divergence:{dim}d", "what": "finite-difference divergence of SRF(generator='VectorField') is not zero",
-                         "case": dict(desc, mode_no=N, seed=seed, mean_velocity=mu, point=x[:, i].tolist(), h=h),
+        worst = max(worst, w)
+        if i is not None:
+            viol.append({"key": f"api:divergence:{dim}d" if path == "call" else f"api:divergence:{dim}d:{path}",
+                         "what": "finite-difference divergence of SRF(generator='VectorField') is not zero"
+                                 + ("" if path == "call" else f" for the vectors delivered through output path {path}"),
+                         "case": dict(desc, mode_no=N, seed=seed, mean_velocity=mu, point=x[:, i].tolist(), h=h, path=path),
                          "divergence": float(div[i]), "tolerance": float(tol[i]), "scale_of_terms": S,
                          "sum_abs_fd_terms": float(absum[i])})
-    return ev, viol, worst, k2min
+    return ev, viol, worst, k2min, paths
+
+
+# ------------------------------------------------------------------ search: isotropic models with rotation angles
+def api_rotated(ctx, n):
+    """an isotropic model (anis = 1) stays isotropic whatever its rotation angles are, so the property covers it; SRF
+    rotates the positions (model.isometrize) but not the vectors.  At most one violation per dimension is reported."""
+    import gstools as gs
+    warnings.simplefilter("ignore")
+    rng = np.random.RandomState(ctx.seed + 1664)
+    viol, ev, seen, worst = [], 0, set(), 0.0
+    for t in range(n):
+        name = MODELS[rng.randint(len(MODELS))]
+        dim = 2 + t % 2
+        desc = make_desc(rng, name, dim)
+        ang = [round(float(a), 3) for a in rng.uniform(0.1, 3.0, size=1 if dim == 2 else 3) * rng.choice([-1, 1], size=1 if dim == 2 else 3)]
+        if dim == 3 and rng.rand() < 0.4:                 # rotation about one axis only
+            keep = rng.randint(3)
+            ang = [a if i == keep else 0.0 for i, a in enumerate(ang)]
+        N = int(rng.choice([1, 5, 40]))
+        seed = int(rng.randint(0, 2 ** 31 - 1))
+        mu = float(rng.choice([1.0, -2.5, 0.3]))
+        try:
+            model = getattr(gs, name)(angles=ang, **{k: v for k, v in desc.items() if k != "model"})
+            srf = gs.SRF(model, generator="VectorField", mean_velocity=mu, mode_no=N, seed=seed)
+        except Exception:
+            continue
+        if not bool(model.is_isotropic):
+            continue
+        X = 6
+        ls = desc["len_scale"]
+        x = rng.randn(dim, X) * ls * 3.0
+        h = 1e-5 * ls
+        U = np.asarray(srf(fd_points(x, h)))
+        i, div, tol, S, absum, w = check_divergence(srf.generator, U, x, h, dim, mu * math.sqrt(model.var / N))
+        ev += X
+        worst = max(worst, w)
+        if i is not None and dim not in seen:
+            seen.add(dim)
+            viol.append({"key": f"api:divergence:rotated-isotropic:{dim}d",
+                         "what": "isotropic model (anis = 1) with non-zero rotation angles: SRF rotates the positions but not "
+                                 "the vectors, u(x) = v(R x) with div v = 0, and the generated vector field is not divergence-free",
+                         "case": dict(desc, angles=ang, mode_no=N, seed=seed, mean_velocity=mu, point=x[:, i].tolist(), h=h),
+                         "divergence": float(div[i]), "tolerance": float(tol[i]), "scale_of_terms": S,
+                         "sum_abs_fd_terms": float(absum[i])})
+    return ev, viol, worst
+
+
+# ------------------------------------------------------------------ search: output layouts against the direct call
+def grid_points(axes):
+    return np.vstack([g.ravel() for g in np.meshgrid(*axes, indexing="ij")])
+
+
+def api_layouts(ctx, n):
+    """every way a generated vector field reaches the user must carry, for point i and component d, the value the direct
+    unstructured call srf(pos) gives for the same point (same object, same seed => same modes)"""
+    import gstools as gs
+    warnings.simplefilter("ignore")
+    rng = np.random.RandomState(ctx.seed + 1680)
+    viol, ev, dist = [], 0, {}
+
+    def report(path, what, case, **kw):
+        viol.append(dict({"key": f"api:layout:{path}", "what": what, "case": case}, **kw))
+
+    for t in range(n):
+        name = MODELS[rng.randint(len(MODELS))]
+        dim = int(rng.choice([2, 3]))
+        desc = make_desc(rng, name, dim)
+        N = int(rng.choice([1, 4, 30, int(rng.randint(3, 120))]))
+        seed = int(rng.randint(0, 2 ** 31 - 1))
+        mu = float(rng.choice([1.0, -2.5, 0.3, round(float(rng.randn() * 3), 3) or 1.0]))
+        try:
+            srf = gs.SRF(build_model(desc), generator="VectorField", mean_velocity=mu, mode_no=N, seed=seed)
+        except Exception:
+            continue
+        ls = desc["len_scale"]
+        X = int(rng.choice([1, dim, dim + 1, 2 * dim, int(rng.randint(2, 40))]))
+        P = rng.randn(dim, X) * ls * float(rng.choice([0.3, 3.0, 30.0]))
+        case = dict(desc, mode_no=N, seed=seed, mean_velocity=mu, points=X)
+        ref = np.asarray(srf(P), dtype=float)
+        if ref.shape != (dim, X):
+            report("call", f"srf(pos) has shape {ref.shape}, expected ({dim}, {X})", case)
+            continue
+        fac = mu * math.sqrt(desc["var"] / N)
+        # the direct call itself against the Kraichnan sum evaluated here from the generator's modes
+        kk, k2, z1, z2 = modes_of(srf.generator, dim)
+        pr = -kk * kk[0] / k2
+        pr[0] += 1.0
+        phase = kk.T @ P
+        want = fac * (pr @ (z1[:, None] * np.cos(phase) + z2[:, None] * np.sin(phase)))
+        want[0] += mu
+        tol = field_tol(srf.generator, dim, fac, mu, P) * 8 + 1e-12 * abs(fac) * (np.abs(z1) + np.abs(z2)).sum()
+        ev += 1
+        if not np.all(np.abs(ref - want) <= tol):
+            i = int(np.argmax((np.abs(ref - want) / tol).max(axis=0)))
+            report("call", "srf(pos) is not mean_u e1 + mean_u sqrt(var/N) sum_j p(k_j)(z1 cos<k_j,x> + z2 sin<k_j,x>) for the generator's own modes",
+                   dict(case, point=P[:, i].tolist()), got=ref[:, i].tolist(), want=want[:, i].tolist())
+            continue
+        # same positions, other paths: identical bits
+        for path in PATHS[1:]:
+            for rep in range(2 if path.startswith("mesh") else 1):
+                ev += 1
+                dist[path] = dist.get(path, 0) + 1
+                try:
+                    U = eval_via(srf, P, path, rng)
+                except LayoutProblem as e:
+                    report(path, f"output path {path}: {e}", case)
+                    break
+                if not same_bits(U, ref):
+                    i = int(np.argmax(np.abs(U - ref).max(axis=0)))
+                    report(path, f"vectors delivered through output path {path} differ from the direct call srf(pos) at the same points",
+                           dict(case, point_index=i, point=P[:, i].tolist()), got=U[:, i].tolist(), want=ref[:, i].tolist())
+                    break
+        # the array srf.mesh returns
+        ev += 1
+        ret = np.asarray(srf.mesh(vertex_mesh(rng, P, dim, list(range(dim))), points="points", name="r"), dtype=float)
+        if not same_bits(ret, ref):
+            report("mesh-return", "array returned by srf.mesh(points='points') differs from the direct call srf(pos) at the mesh points", case)
+        # centroids of mixed cells (vertex / line / triangle / quad, shuffled vertices, several blocks)
+        mesh_dim = int(rng.randint(dim, 4))
+        select, direction = random_select(rng, dim, mesh_dim)
+        mesh, cent = centroid_mesh(rng, P, mesh_dim, select)
+        nm = str(rng.choice(NAMES))
+        ev += 1
+        dist["mesh-centroids-mixed"] = dist.get("mesh-centroids-mixed", 0) + 1
+        try:
+            ret = srf.mesh(mesh, points="centroids", direction=direction, name=nm)
+            if nm not in mesh.cell_data:
+                raise LayoutProblem(f"cell_data keys {sorted(mesh.cell_data)} after name={nm!r}")
+            U = cell_vectors(mesh.cell_data[nm], [len(c.data) for c in mesh.cells], dim, f"mesh.cell_data[{nm!r}]")
+            refc = np.asarray(srf(cent), dtype=float)
+            tolc = field_tol(srf.generator, dim, fac, mu, cent)
+            if not np.all(np.abs(U - refc) <= tolc):
+                i = int(np.argmax((np.abs(U - refc) / tolc).max(axis=0)))
+                report("mesh-centroids", "cell data written by srf.mesh(points='centroids') differ from the direct call at the cell centroids",
+                       dict(case, cell_types=[c.type for c in mesh.cells], direction=direction, cell_index=i,
+                            centroid=cent[:, i].tolist()), got=U[:, i].tolist(), want=refc[:, i].tolist())
+            elif not np.all(np.abs(np.asarray(ret, dtype=float).reshape(dim, -1) - refc) <= tolc):
+                report("mesh-return", "array returned by srf.mesh(points='centroids') differs from the direct call at the cell centroids",
+                       dict(case, cell_types=[c.type for c in mesh.cells], direction=direction))
+        except LayoutProblem as e:
+            report("mesh-centroids", f"srf.mesh(points='centroids') on mixed cells: {e}", case)
+        # structured grid: srf.structured, stored name, vtk rectilinear arrays (Fortran order)
+        shape = [int(rng.randint(1, 5)) for _ in range(dim)]
+        if len(set(shape)) == 1 and rng.rand() < 0.7:
+            shape[-1] += 1
+        axes = [np.sort(rng.randn(s) * ls * 3.0) for s in shape]
+        G = grid_points(axes)
+        refg = np.asarray(srf(G), dtype=float)
+        nm = str(rng.choice(NAMES))
+        ev += 2
+        dist["structured"] = dist.get("structured", 0) + 1
+        S = np.asarray(srf.structured(axes, store=nm), dtype=float)
+        if S.shape != tuple([dim] + shape):
+            report("structured", f"srf.structured has shape {S.shape}, expected {tuple([dim] + shape)}", dict(case, grid=shape))
+        elif not (same_bits(S.reshape(dim, -1), refg) and same_bits(srf[nm], S)):
+            report("structured", "srf.structured (C-ordered grid, component first) differs from the direct call at the grid points",
+                   dict(case, grid=shape))
+        else:
+            with VtkCapture() as cap:
+                srf.vtk_export("/nonexistent/c16", field_select=nm, fieldname="w")
+            try:
+                if len(cap.calls) != 1:
+                    raise LayoutProblem(f"vtk_export called the writers {len(cap.calls)} times")
+                arrs = vtk_vectors(cap.calls[0], "grid", G, "w", dim)
+                full = shape + [1] * (3 - dim)
+                for a, got in enumerate(cap.calls[0][1:4]):
+                    if not same_bits(np.asarray(got), axes[a] if a < dim else np.array([0])):
+                        raise LayoutProblem(f"axis {a} of the exported rectilinear grid is not the position axis")
+                for d in range(dim):
+                    if arrs[d].shape != (int(np.prod(full)),):
+                        raise LayoutProblem(f"exported array {d} has shape {arrs[d].shape}")
+                    # vtk point index = ix + nx*(iy + ny*iz)
+                    V = np.empty(full)
+                    for idx in np.ndindex(*full):
+                        V[idx] = arrs[d][idx[0] + full[0] * (idx[1] + full[1] * idx[2])]
+                    if not same_bits(V.reshape(shape), S[d]):
+                        raise LayoutProblem(f"component {d} of the exported rectilinear arrays is not the field in vtk point order")
+            except LayoutProblem as e:
+                report("vtk-structured", f"vtk export of a structured vector field: {e}", dict(case, grid=shape))
+    return ev, viol, dist
+
+
+# ------------------------------------------------------------------ search: histories on one object
+def space_mean_z(gen, dim, fac, mean_u, U):
+    """z-scores of the spatial means of U (dim, M), evaluated at far-apart random points, against mean_u e1; the spatial
+    variance of component d of a mode sum is fac^2 sum_j p_d(k_j)^2 (z1_j^2 + z2_j^2)/2"""
+    kk, k2, z1, z2 = modes_of(gen, dim)
+    k2d = (kk ** 2).sum(axis=0)
+    p = -kk * kk[0] / k2d
+    p[0] += 1.0
+    var = fac * fac * (p ** 2 * (z1 ** 2 + z2 ** 2) / 2.0).sum(axis=1)
+    e = np.zeros(dim)
+    e[0] = mean_u
+    se = np.sqrt(var / U.shape[1]) + 16 * EPS * (abs(mean_u) + abs(fac) * (np.abs(z1) + np.abs(z2)).sum())
+    return np.abs(U.mean(axis=1) - e) / se
+
+
+def api_histories(ctx, n, deep):
+    """one object, many settings: after every step of a random operation history the field must be divergence-free,
+    identical to the field of a freshly built object with the tracked settings and seed, and have the right mean"""
+    warnings.simplefilter("ignore")
+    rng = np.random.RandomState(ctx.seed + 1696)
+    viol, ev, worst, worst_z, ops = [], 0, 0.0, 0.0, {}
+    keys = set()
+
+    def report(key, what, h, **kw):
+        if key in keys and len(viol) >= 4:
+            return
+        keys.add(key)
+        viol.append(dict({"key": key, "what": what, "case": h.record()}, **kw))
+
+    for t in range(n):
+        level = "srf" if t % 3 else "gen"
+        try:
+            h = start_history(rng, level)
+        except Exception:
+            continue
+        L = int(rng.randint(2, 7))
+        prev_x = None
+        try:    # the object has been used before the first operation (stored fields, positions, RNG stream in place)
+            prev_x, prev_h = rng.randn(h.dim, 3) * h.desc["len_scale"], 1e-5 * h.desc["len_scale"]
+            h.evaluate(fd_points(prev_x, prev_h), "call-named" if level == "srf" else "generator", rng)
+        except Exception as e:
+            report("api:history:raised:evaluate", f"evaluation of the fresh object raised {type(e).__name__}: {e}", h)
+            continue
+        for s in range(L):
+            op = random_op(rng, h)
+            kind = op_kind(op)
+            ops[kind] = ops.get(kind, 0) + 1
+            try:
+                h.apply(op)
+            except Exception as e:
+                report(f"api:history:raised:{kind}", f"operation {kind} raised {type(e).__name__}: {e}", h)
+                break
+            if s < L - 1 and rng.rand() < 0.4:
+                continue
+            dim, ls = h.dim, h.desc["len_scale"]
+            X = 3
+            x = rng.randn(dim, X) * ls * float(rng.choice([0.3, 3.0, 30.0]))
+            hh = 1e-5 * ls
+            if prev_x is not None and prev_x.shape[0] == dim and rng.rand() < 0.5:
+                x = prev_x      # same positions as the previous evaluation: stored fields are not dropped by the SRF
+                hh = prev_h
+            prev_x, prev_h = x, hh
+            P = fd_points(x, hh)
+            path = str(rng.choice(PATHS)) if level == "srf" else "generator"
+            try:
+                U = h.evaluate(P, path, rng)
+            except LayoutProblem as e:
+                report(f"api:history:layout:{path}", f"after the history, output path {path}: {e}", h)
+                break
+            except Exception as e:
+                report(f"api:history:raised:evaluate", f"evaluation after {kind} raised {type(e).__name__}: {e}", h)
+                break
+            ev += X
+            if U.shape != (dim, P.shape[1]):
+                report("api:history:shape", f"field has shape {U.shape}, expected {(dim, P.shape[1])}", h)
+                break
+            fac = h.mu * math.sqrt(h.desc["var"] / h.N)
+            i, div, tol, S, absum, w = check_divergence(h.gen, U, x, hh, dim, fac)
+            worst = max(worst, w)
+            if i is not None:
+                report(f"api:history:divergence:{dim}d",
+                       "after a history of in-place updates of one object the generated vector field is not divergence-free "
+                       f"(last operation: {kind})", h, point=x[:, i].tolist(), step=hh, path=path,
+                       divergence=float(div[i]), tolerance=float(tol[i]), scale_of_terms=S, sum_abs_fd_terms=float(absum[i]))
+            try:
+                F, hf = h.fresh(P)
+            except Exception as e:
+                report("api:history:fresh-raised", f"building a fresh object with the tracked settings raised {type(e).__name__}: {e}", h)
+                break
+            if not same_bits(U, F):
+                j = int(np.argmax(np.abs(U - F).max(axis=0))) if U.shape == F.shape else 0
+                report("api:history:differs-from-fresh",
+                       "after a history of in-place updates the object's field differs from that of a freshly built object "
+                       f"with the same settings and seed (last operation: {kind})", h, path=path, point=P[:, j].tolist(),
+                       got=U[:, j].tolist(), want=(F[:, j].tolist() if U.shape == F.shape else None))
+            if i is not None or not same_bits(U, F):
+                break
+        else:
+            # spatial mean of the last state at far-apart points
+            dim, ls = h.dim, h.desc["len_scale"]
+            M = 400
+            Pm = rng.uniform(-1e4 * ls, 1e4 * ls, size=(dim, M))
+            try:
+                Um = h.evaluate(Pm, str(rng.choice(PATHS)) if level == "srf" else "generator", rng)
+            except Exception as e:
+                report("api:history:raised:evaluate", f"evaluation raised {type(e).__name__}: {e}", h)
+                continue
+            z = space_mean_z(h.gen, dim, h.mu * math.sqrt(h.desc["var"] / h.N), h.mu, Um)
+            worst_z = max(worst_z, float(z.max()))
+            ev += 1
+            if z.max() > 6.5:
+                d = int(np.argmax(z))
+                report(f"api:history:mean:axis{d}", "after a history the spatial mean of a component is not mean_velocity*e1", h,
+                       axis=d, mean=float(Um[d].mean()), want=h.mu if d == 0 else 0.0, z=float(z[d]), points=M)
+    return ev, viol, worst, worst_z, ops
 
 
 # ------------------------------------------------------------------ search: means and variance shares
 def api_moments(ctx, deep):
-    """per (class, dim): seeds x far-apart random points; E u = mean_u e1, Var u_d = mean_u^2 var share_d"""
+    """per (class, dim): seeds x far-apart random points; E u = mean_u e1, Var u_d = mean_u^2 var share_d; the members of
+    an ensemble are read through the output paths (direct call, stored name, mesh point / cell data, vtk arrays) in turn"""
     import gstools as gs
     warnings.simplefilter("ignore")
     rng = np.random.RandomState(ctx.seed + 1632)
@@ -276,6 +1128,8 @@ def api_moments(ctx, deep):
     N = ctx.scale(200, 500)
     M = ctx.scale(1500, 2000)
     viol, ev, worst = [], 0, 0.0
+    rng_p = np.random.RandomState(ctx.seed + 1633)      # output path details (separate stream)
+    npath = 0                                           # the ensemble members are read through the output paths in turn
     for name in names:
         for dim in (2, 3):
             try:
@@ -285,6 +1139,7 @@ def api_moments(ctx, deep):
             mu = float(rng.choice([1.0, -2.0, 0.5]))
             ls = desc["len_scale"]
             ms, vs = [], []
+            npath += 1
             for s in range(S):
                 seed = int(rng.randint(0, 2 ** 31 - 1))
                 try:
@@ -292,7 +1147,13 @@ def api_moments(ctx, deep):
                 except Exception:
                     continue
                 x = rng.uniform(-1e4 * ls, 1e4 * ls, size=(dim, M))
-                u = np.asarray(srf(x))
+                path = PATHS[(npath + s) % len(PATHS)]
+                try:
+                    u = eval_via(srf, x, path, rng_p)
+                except LayoutProblem as e:
+                    viol.append({"key": f"api:layout:{path}", "what": f"output path {path} of a vector field: {e}",
+                                 "case": dict(desc, mean_velocity=mu, mode_no=N, seed=seed, points=M)})
+                    break
                 ev += 1
                 e = np.zeros((dim, 1)); e[0] = mu
                 ms.append(u.mean(axis=1))
@@ -352,39 +1213,71 @@ def source_divergence(ctx, n):
 
 def search(ctx, deep=False):
     n = ctx.scale(170, 1360) * (3 if deep else 1)
-    ev1, v1, worst1, k2min = api_divergence(ctx, n, deep)
-    ctx.log(f"divergence: {ev1} points, worst |div|/tol = {worst1:.3g}, min |k|^2 len_scale^2 = {k2min:.3g}")
+    ev1, v1, worst1, k2min, paths = api_divergence(ctx, n, deep)
+    ctx.log(f"divergence: {ev1} points, worst |div|/tol = {worst1:.3g}, min |k|^2 len_scale^2 = {k2min:.3g}, paths {paths}")
+    ev4, v4, ldist = api_layouts(ctx, ctx.scale(40, 500) * (2 if deep else 1))
+    ctx.log(f"layouts: {ev4} comparisons with the direct call, {len(v4)} differences, {ldist}")
+    ev5, v5, worst5, worstz5, ops = api_histories(ctx, ctx.scale(36, 450) * (2 if deep else 1), deep)
+    ctx.log(f"histories: {ev5} evaluations, worst |div|/tol = {worst5:.3g}, worst mean z = {worstz5:.2f}, {len(v5)} problems, ops {ops}")
     ev2, v2, worst2 = api_moments(ctx, deep)
     ctx.log(f"moments: {ev2} fields, worst z = {worst2:.2f}")
     try:
         ev3, v3 = source_divergence(ctx, ctx.scale(40, 400))
-    except Exception as e:  # driver not available: the other two searches stand on their own
+    except Exception as e:  # driver not available: the other searches stand on their own
         ctx.log("source-side divergence skipped:", e)
         ev3, v3 = 0, []
-    return {"evaluations": ev1 + ev2 + ev3, "violations": (v1 + v2 + v3)[:8],
+    ev6, v6, worst6 = api_rotated(ctx, ctx.scale(12, 120))
+    ctx.log(f"rotated isotropic models: {ev6} points, worst |div|/tol = {worst6:.3g}")
+    return {"evaluations": ev1 + ev2 + ev3 + ev4 + ev5 + ev6,
+            "violations": (v1[:3] + v4[:3] + v5[:4] + v2[:3] + v3[:2])[:8] + v6,
             "summary": f"central-difference divergence (h=1e-5 len_scale) of real SRF(generator='VectorField') at {ev1} random points over "
-                       f"all model classes, dims 2/3, seeds, mode numbers, mean velocities: worst |div|/tolerance {worst1:.3g} "
+                       f"all model classes, dims 2/3, seeds, mode numbers, mean velocities, read through the output paths {paths}: worst |div|/tolerance {worst1:.3g} "
                        f"(tolerance = 3x truncation + 3x rounding bound + 1e-9 x scale of the cancelling terms), smallest |k|^2 len_scale^2 seen {k2min:.3g}; "
+                       f"{ev4} comparisons of output layouts (stored names, unstructured, structured, meshio point data and cell data with "
+                       f"direction selection / several blocks / mixed cell types, vtk point and rectilinear arrays) with the direct call "
+                       f"and of the direct call with the Kraichnan sum of the generator's modes ({ldist}); "
+                       f"{ev5} evaluations along random operation histories on one SRF / IncomprRandMeth object ({ops}): divergence "
+                       f"(worst ratio {worst5:.3g}), bit-identity with a freshly built object, spatial mean (worst z {worstz5:.2f}); "
                        f"{ev2} fields in seed x space ensembles for E u = mean_u e1 and Var u_d = mean_u^2 var share_d "
                        f"(3/8,1/8 | 8/15,1/15,1/15), worst z-score {worst2:.2f} (threshold 6.5); "
-                       f"{ev3} finite-difference points on the Lean translation of the current summator.pyx"}
+                       f"{ev3} finite-difference points on the Lean translation of the current summator.pyx; "
+                       f"{ev6} points of isotropic models with rotation angles (worst |div|/tolerance {worst6:.3g})"}
 
 
 def replay(ctx, payload):
-    """re-run the recorded failing divergence cases on the real code"""
+    """re-run the recorded failing cases on the real code: divergence cases (fresh objects, any output path, rotated
+    isotropic models) and operation histories; layout differences are re-described only"""
     import gstools as gs
     warnings.simplefilter("ignore")
     status = 0
+    rng = np.random.RandomState(0)
     for v in payload.get("violations", []):
         c = v.get("case", {})
-        if not str(v.get("key", "")).startswith("api:divergence"):
-            print("replay: only api:divergence cases are re-executed; recorded:", v.get("key"), v.get("what"))
+        key = str(v.get("key", ""))
+        if key.startswith("api:history") and "ops" in c:
+            h = Hist(c["level"], c["desc"], c["mode_no"], c["seed"], c["mean_velocity"])
+            for op in c["ops"]:
+                h.apply(op)
+            dim = h.dim
+            hh = v.get("step", 1e-5 * h.desc["len_scale"])
+            x = np.array(v.get("point", [0.1] * dim), dtype=float)[:dim].reshape(dim, 1)
+            P = fd_points(x, hh)
+            U = h.evaluate(P, v.get("path", "call") if h.level == "srf" else "generator", rng)
+            F, _ = h.fresh(P)
+            i, div, tol, S, absum, w = check_divergence(h.gen, U, x, hh, dim, h.mu * math.sqrt(h.desc["var"] / h.N))
+            print(f"replay {key}: after {[op_kind(o) for o in h.ops]} mode arrays {np.shape(h.gen._cov_sample)} for dim {dim}, "
+                  f"divergence {float(div[0])!r} (tolerance {float(tol[0])!r}), equal to a fresh object: {same_bits(U, F)}")
+            if i is not None or not same_bits(U, F):
+                status = 1
             continue
-        kw = {k: c[k] for k in c if k not in ("model", "dim", "mode_no", "seed", "mean_velocity", "point", "h")}
+        if not key.startswith("api:divergence"):
+            print("replay: only api:divergence / api:history cases are re-executed; recorded:", v.get("key"), v.get("what"))
+            continue
+        kw = {k: c[k] for k in c if k not in ("model", "dim", "mode_no", "seed", "mean_velocity", "point", "h", "path")}
         model = getattr(gs, c["model"])(dim=c["dim"], **kw)
         srf = gs.SRF(model, generator="VectorField", mean_velocity=c["mean_velocity"], mode_no=c["mode_no"], seed=c["seed"])
         x = np.array(c["point"], dtype=float).reshape(c["dim"], 1)
-        U = np.asarray(srf(fd_points(x, c["h"])))
+        U = eval_via(srf, fd_points(x, c["h"]), c.get("path", "call"), rng)
         div, _ = fd_divergence(U, c["dim"], 1, c["h"])
         print(f"replay {v['key']}: divergence {float(div[0])!r} (recorded {v.get('divergence')!r}, tolerance {v.get('tolerance')!r})")
         if not abs(float(div[0])) <= float(v.get("tolerance", 0.0)):
